@@ -311,6 +311,8 @@ def run(ctx):
         shutil.rmtree(tmp, ignore_errors=True)
     from props import glue
     glue.limit_zero(ctx)
+    from props import clauses
+    clauses.misc_clauses(ctx, 'C11')
     return ctx.finish(RULE)
 
 
